@@ -569,10 +569,13 @@ func (d *Directory) handleModify(t TestingT) func(w *gldap.ResponseWriter, r *gl
 				}
 			case gldap.ReplaceAttribute:
 				if foundAttr != nil {
-					// we're updating what the ptr points at, so disable lint of
-					// unused var
-					//nolint:staticcheck
-					foundAttr = gldap.NewEntryAttribute(chg.Modification.Type, chg.Modification.Vals)
+					vals, err := gldap.ConvertString(chg.Modification.Vals...)
+					if err != nil {
+						res.SetResultCode(gldap.ResultProtocolError)
+						res.SetDiagnosticMessage(err.Error())
+						return
+					}
+					e.Attributes[foundAt] = gldap.NewEntryAttribute(chg.Modification.Type, vals)
 				}
 			}
 		}
